@@ -38,6 +38,8 @@ pub struct HistCfg {
     pub w_create: u32,
     /// offsets/counts for character data also draw usize::MAX and usize::MAX-1
     pub huge_offsets: bool,
+    /// number of START_DOCS usable (0 = all)
+    pub max_doc: usize,
 }
 
 fn pick_str(g: &mut Genes, pool: &[&str]) -> String {
@@ -45,8 +47,9 @@ fn pick_str(g: &mut Genes, pool: &[&str]) -> String {
 }
 
 pub fn gen_history(g: &mut Genes, cfg: &HistCfg) -> Json {
-    let d1 = g.pick(START_DOCS.len());
-    let d2 = g.pick(START_DOCS.len());
+    let nd = if cfg.max_doc == 0 { START_DOCS.len() } else { cfg.max_doc.min(START_DOCS.len()) };
+    let d1 = g.pick(nd);
+    let d2 = g.pick(nd);
     let merged = g.chance(1, 4);
     let n = g.range(0, cfg.max_ops);
     let names = if cfg.safe_strings { SAFE_NAMES } else { NAMES };
